@@ -160,6 +160,10 @@ func (c *ClientFingerprintConfiguration) marshal(config *Config) ([]byte, error)
 		copy(sessionID[1:], c.SessionID)
 	}
 
+	if len(c.CipherSuites) >= 1<<15 {
+		// the list's byte length must fit its 16-bit length field
+		return nil, errors.New("tls: too many cipher suites")
+	}
 	ciphers := make([]byte, 2+2*len(c.CipherSuites))
 	ciphers[0] = uint8(len(c.CipherSuites) >> 7)
 	ciphers[1] = uint8(len(c.CipherSuites) << 1)
@@ -200,6 +204,9 @@ func (c *ClientFingerprintConfiguration) marshal(config *Config) ([]byte, error)
 	var extensions []byte
 	for _, ext := range c.Extensions {
 		extensions = append(extensions, ext.Marshal()...)
+	}
+	if len(extensions) >= 1<<16 {
+		return nil, errors.New("tls: extensions too long")
 	}
 	if len(extensions) > 0 {
 		length := make([]byte, 2)
